@@ -694,54 +694,528 @@ Proof.
   rewrite D1, D2. reflexivity.
 Qed.
 
-(** -c options: shapes of rank 1..3 with lengths 1..12, and NONE (a complete finite domain; the general statement
-    needs [atoi (print_nat n) = n] for all n < 10^9 and an induction over the rank, not proved here) *)
-Definition small_lens : list Z := zrange 1 (Z.to_nat 12).
-Definition chunk_domain : list (Z * list Z) :=
-  (-2, []) :: map (fun a => (1, [a])) small_lens ++
-  flat_map (fun a => map (fun b => (2, [a; b])) small_lens) small_lens ++
-  flat_map (fun a => flat_map (fun b => map (fun c => (3, [a; b; c])) small_lens) small_lens) small_lens.
-
-Definition chunk_tail (r : Z) (lens : list Z) : str :=
-  if r =? -2 then kw_NONE else join ch_x (map print_nat lens).
-
-Definition chunk_tail_ok (rl : Z * list Z) : bool :=
-  let '(r, lens) := rl in
-  negb (existsb (Z.eqb ch_colon) (chunk_tail r lens)) && negb (str_eqb (chunk_tail r lens) []) &&
-  match chunk_loop (chunk_tail r lens) [] [] with
-  | ROk e => (ke_rank e =? r) && str_eqb (ke_lens e) lens
-  | _ => false
-  end.
-
-Lemma chunk_domain_ok : forallb chunk_tail_ok chunk_domain = true.
-Proof. vm_compute. reflexivity. Qed.
-
 Lemma str_eqb_eq : forall a b, str_eqb a b = true -> a = b.
 Proof.
   induction a as [|x a IH]; destruct b as [|y b]; simpl; intro H; try discriminate; [reflexivity|].
   apply andb_true_iff in H. destruct H as [H1 H2]. apply Z.eqb_eq in H1. subst. f_equal. apply IH. exact H2.
 Qed.
 
-Lemma parse_print_chunk_partial_lemma : forall names r lens,
-  names <> [] -> Forall wf_name names -> In (r, lens) chunk_domain ->
+
+(** * Decimal printing and atoi *)
+Lemma is_digit_spec : forall c, is_digit c = true <-> 48 <= c <= 57.
+Proof. intro c. unfold is_digit. rewrite andb_true_iff, !Z.leb_le. tauto. Qed.
+
+Lemma atoi_acc_app : forall ds a rest, Forall (fun c => is_digit c = true) ds ->
+  atoi_acc a (ds ++ rest) = atoi_acc (fold_left (fun x c => x * 10 + (c - 48)) ds a) rest.
+Proof.
+  induction ds as [|c ds IH]; intros a rest Hf; simpl; [reflexivity|].
+  inversion Hf; subst. rewrite H1. apply IH. assumption.
+Qed.
+
+(** digits_acc produces the decimal digits of n in front of the accumulator *)
+Lemma digits_acc_spec : forall f n acc, 0 <= n < 10 ^ Z.of_nat f -> (0 < f)%nat ->
+  exists ds, digits_acc f n acc = ds ++ acc /\ Forall (fun c => is_digit c = true) ds /\ ds <> [] /\
+             (length ds <= f)%nat /\ (forall a, fold_left (fun x c => x * 10 + (c - 48)) ds a = a * 10 ^ Z.of_nat (length ds) + n) /\
+             (0 < n -> hd 0 ds <> 48).
+Proof.
+  induction f as [|f IH]; intros n acc Hn Hf; [inversion Hf|].
+  cbn [digits_acc]. destruct (n <? 10) eqn:E.
+  - apply Z.ltb_lt in E. exists [48 + n]. split; [reflexivity|]. split.
+    { constructor; [|constructor]. apply is_digit_spec. lia. }
+    split; [discriminate|]. split; [simpl; lia|]. split.
+    { intro a. cbn [fold_left length]. change (Z.of_nat 1) with 1. rewrite Z.pow_1_r. lia. }
+    { intro Hp. cbn [hd]. lia. }
+  - apply Z.ltb_ge in E.
+    assert (Hf' : (0 < f)%nat).
+    { destruct f; [|lia]. simpl in Hn. lia. }
+    assert (Hq : 0 <= n / 10 < 10 ^ Z.of_nat f).
+    { split; [apply Z.div_pos; lia|]. apply Z.div_lt_upper_bound; [lia|].
+      rewrite Nat2Z.inj_succ, Z.pow_succ_r in Hn by lia. lia. }
+    destruct (IH (n / 10) ((48 + n mod 10) :: acc) Hq Hf') as [ds [H1 [H2 [H3 [H4 [H5 H6]]]]]].
+    exists (ds ++ [48 + n mod 10]). split; [rewrite H1, <- app_assoc; reflexivity|]. split.
+    { apply Forall_app. split; [exact H2|]. constructor; [|constructor]. apply is_digit_spec.
+      pose proof (Z.mod_pos_bound n 10 ltac:(lia)). lia. }
+    split; [destruct ds; discriminate|]. split; [rewrite app_length; cbn [length]; lia|]. split.
+    { intro a. rewrite fold_left_app. cbn [fold_left]. rewrite H5. rewrite app_length. cbn [length].
+      rewrite Nat2Z.inj_add. change (Z.of_nat 1) with 1. rewrite Z.pow_add_r by lia. rewrite Z.pow_1_r.
+      pose proof (Z.div_mod n 10 ltac:(lia)). set (P := 10 ^ Z.of_nat (length ds)). nia. }
+    { intro Hp. destruct ds as [|d ds']; [contradiction|]. cbn [hd app]. cbn [hd] in H6. apply H6.
+      apply Z.div_str_pos. lia. }
+Qed.
+
+Lemma print_nat_spec : forall n, 0 <= n < 10 ^ 9 ->
+  Forall (fun c => is_digit c = true) (print_nat n) /\ print_nat n <> [] /\ zlen (print_nat n) <= 9 /\
+  atoi (print_nat n) = n /\ (0 < n -> hd 0 (print_nat n) <> 48).
+Proof.
+  intros n Hn. unfold print_nat.
+  destruct (digits_acc_spec 9 n [] ltac:(simpl Z.of_nat; lia) ltac:(lia)) as [ds [H1 [H2 [H3 [H4 [H5 H6]]]]]].
+  rewrite app_nil_r in H1. rewrite H1.
+  split; [exact H2|]. split; [exact H3|]. split; [unfold zlen; lia|]. split; [|exact H6].
+  unfold atoi. rewrite <- (app_nil_r ds). rewrite atoi_acc_app by exact H2. cbn [atoi_acc]. rewrite H5. lia.
+Qed.
+
+(** * parse_chunk on a printed shape *)
+Lemma digit_not_x : forall c, is_digit c = true -> (c =? ch_x) = false.
+Proof. intros c H. apply is_digit_spec in H. apply Z.eqb_neq. unfold ch_x. lia. Qed.
+
+Lemma chunk_loop_digits : forall ds rest seg lens0,
+  Forall (fun c => is_digit c = true) ds -> zlen seg + zlen ds <= 9 -> rest <> [] ->
+  chunk_loop (ds ++ rest) seg lens0 = chunk_loop rest (rev ds ++ seg) lens0.
+Proof.
+  induction ds as [|c ds IH]; intros rest seg lens0 Hf Hlen Hr; [reflexivity|].
+  inversion Hf as [|? ? Hc Hds]; subst.
+  cbn [app chunk_loop]. rewrite Hc. cbn [orb negb]. rewrite (digit_not_x _ Hc). cbn [negb andb].
+  assert (E : (9 <? zlen seg + 1) = false).
+  { apply Z.ltb_ge. unfold zlen in *. cbn [length] in Hlen. lia. }
+  rewrite E.
+  destruct (ds ++ rest) as [|y ys] eqn:Eapp.
+  { destruct ds; [cbn [app] in Eapp; contradiction | discriminate]. }
+  rewrite <- Eapp. rewrite IH; [|assumption| |assumption].
+  - cbn [rev]. rewrite <- app_assoc. reflexivity.
+  - unfold zlen in *. cbn [length] in *. lia.
+Qed.
+
+Lemma x_in_alphabet : existsb (Z.eqb ch_x) chunk_alphabet = true.
+Proof. vm_compute. reflexivity. Qed.
+
+Lemma chunk_loop_x : forall rest seg lens0,
+  rest <> [] -> atoi (rev seg) <> 0 -> zlen lens0 < H4_MAX_VAR_DIMS ->
+  chunk_loop (ch_x :: rest) seg lens0 = chunk_loop rest [] (atoi (rev seg) :: lens0).
+Proof.
+  intros rest seg lens0 Hr Ha Hl. cbn [chunk_loop]. rewrite x_in_alphabet. rewrite orb_true_r. cbn [negb].
+  rewrite Z.eqb_refl. cbn [negb andb].
+  destruct rest as [|y ys]; [contradiction|].
+  assert (E1 : (atoi (rev seg) =? 0) = false) by (apply Z.eqb_neq; exact Ha). rewrite E1.
+  assert (E2 : (H4_MAX_VAR_DIMS <=? zlen lens0) = false) by (apply Z.leb_gt; exact Hl). rewrite E2.
+  reflexivity.
+Qed.
+
+Lemma chunk_loop_last : forall ds lens0,
+  Forall (fun c => is_digit c = true) ds -> ds <> [] -> zlen ds <= 9 -> atoi ds <> 0 ->
+  zlen lens0 < H4_MAX_VAR_DIMS ->
+  chunk_loop ds [] lens0 = ROk {| ke_names := []; ke_rank := zlen lens0 + 1; ke_lens := rev (atoi ds :: lens0) |}.
+Proof.
+  intros ds lens0 Hf Hne Hlen Hn Hl.
+  destruct (exists_last Hne) as [ds' [c E]]. subst ds.
+  apply Forall_app in Hf. destruct Hf as [Hf' Hc]. inversion Hc as [|? ? Hc' _]; subst.
+  rewrite chunk_loop_digits; [|exact Hf'| |discriminate].
+  2:{ unfold zlen in *. rewrite app_length in Hlen. cbn [length] in *. lia. }
+  cbn [chunk_loop]. rewrite Hc'. cbn [orb negb]. rewrite (digit_not_x _ Hc'). cbn [negb andb].
+  assert (E : (9 <? zlen (rev ds' ++ []) + 1) = false).
+  { apply Z.ltb_ge. unfold zlen in *. rewrite app_nil_r, rev_length. rewrite app_length in Hlen. cbn [length] in Hlen. lia. }
+  rewrite E. rewrite app_nil_r. cbn [rev]. rewrite rev_involutive.
+  assert (EN : str_eqb (ds' ++ [c]) kw_NONE = false).
+  { destruct ds' as [|d ds'']; cbn [app str_eqb kw_NONE].
+    - apply is_digit_spec in Hc'. assert (X : (c =? 78) = false) by (apply Z.eqb_neq; lia). rewrite X. reflexivity.
+    - inversion Hf'; subst. apply is_digit_spec in H1. assert (X : (d =? 78) = false) by (apply Z.eqb_neq; lia).
+      rewrite X. reflexivity. }
+  rewrite EN.
+  assert (E1 : (atoi (ds' ++ [c]) =? 0) = false) by (apply Z.eqb_neq; exact Hn). rewrite E1.
+  assert (E2 : (H4_MAX_VAR_DIMS <=? zlen lens0) = false) by (apply Z.leb_gt; exact Hl). rewrite E2.
+  reflexivity.
+Qed.
+
+Definition wf_len (l : Z) : Prop := 1 <= l < 10 ^ 9.
+
+Lemma join_x_nonempty : forall ls, ls <> [] -> Forall wf_len ls -> join ch_x (map print_nat ls) <> [].
+Proof.
+  intros ls Hne Hf. destruct ls as [|l ls]; [contradiction|]. inversion Hf; subst.
+  destruct (print_nat_spec l ltac:(unfold wf_len in *; lia)) as [_ [Hp _]].
+  cbn [map join]. destruct (map print_nat ls).
+  - exact Hp.
+  - intro H. apply app_eq_nil in H. destruct H. contradiction.
+Qed.
+
+Lemma chunk_loop_shape : forall ls acc, ls <> [] -> Forall wf_len ls ->
+  zlen acc + zlen ls <= H4_MAX_VAR_DIMS ->
+  chunk_loop (join ch_x (map print_nat ls)) [] acc =
+  ROk {| ke_names := []; ke_rank := zlen acc + zlen ls; ke_lens := rev acc ++ ls |}.
+Proof.
+  induction ls as [|l ls IH]; intros acc Hne Hf Hlen; [contradiction|].
+  inversion Hf as [|? ? Hl Hls]; subst.
+  destruct (print_nat_spec l ltac:(unfold wf_len in *; lia)) as [Hd [Hp [Hz [Ha _]]]].
+  destruct ls as [|l2 ls'].
+  - cbn [map join]. rewrite (chunk_loop_last _ acc Hd Hp Hz).
+    + rewrite Ha. unfold zlen. cbn [length rev]. f_equal.
+    + rewrite Ha. unfold wf_len in Hl. lia.
+    + unfold zlen in *. cbn [length] in Hlen. lia.
+  - change (join ch_x (map print_nat (l :: l2 :: ls'))) with
+      (print_nat l ++ ch_x :: join ch_x (map print_nat (l2 :: ls'))).
+    rewrite chunk_loop_digits; [|exact Hd|unfold zlen in *; cbn [length]; lia|discriminate].
+    rewrite app_nil_r.
+    rewrite chunk_loop_x.
+    + rewrite rev_involutive, Ha. rewrite IH; [|discriminate|exact Hls|].
+      * replace (zlen (l :: acc) + zlen (l2 :: ls')) with (zlen acc + zlen (l :: l2 :: ls')) by (unfold zlen; cbn [length]; lia).
+        cbn [rev]. rewrite <- app_assoc. reflexivity.
+      * unfold zlen in *. cbn [length] in *. lia.
+    + apply join_x_nonempty; [discriminate|exact Hls].
+    + rewrite rev_involutive, Ha. unfold wf_len in Hl. lia.
+    + unfold zlen in *. cbn [length] in *. lia.
+Qed.
+
+Lemma no_colon_digits : forall ds, Forall (fun c => is_digit c = true) ds -> ~ In ch_colon ds.
+Proof.
+  intros ds Hf Hin. rewrite Forall_forall in Hf. specialize (Hf _ Hin). apply is_digit_spec in Hf. unfold ch_colon in Hf. lia.
+Qed.
+
+Lemma join_x_no_colon : forall ls, Forall wf_len ls -> ~ In ch_colon (join ch_x (map print_nat ls)).
+Proof.
+  induction ls as [|l ls IH]; intro Hf; [simpl; auto|].
+  inversion Hf as [|? ? Hl Hls]; subst.
+  destruct (print_nat_spec l ltac:(unfold wf_len in *; lia)) as [Hd _].
+  destruct ls as [|l2 ls'].
+  - cbn [map join]. apply no_colon_digits. exact Hd.
+  - change (join ch_x (map print_nat (l :: l2 :: ls'))) with (print_nat l ++ ch_x :: join ch_x (map print_nat (l2 :: ls'))).
+    intro H. apply in_app_or in H. destruct H as [H|H]; [exact (no_colon_digits _ Hd H)|].
+    destruct H as [H|H]; [unfold ch_x, ch_colon in H; discriminate|].
+    exact (IH Hls H).
+Qed.
+
+(** parse_print_chunk, full: any non-empty list of well-formed names with NONE, or with a shape of 1 to
+    H4_MAX_VAR_DIMS lengths between 1 and 10^9 - 1 (nine digits: all the parser's buffer takes) *)
+Lemma parse_print_chunk_lemma : forall names r lens,
+  names <> [] -> Forall wf_name names ->
+  (r = -2 /\ lens = [] \/ r = zlen lens /\ lens <> [] /\ zlen lens <= H4_MAX_VAR_DIMS /\ Forall wf_len lens) ->
   parse_chunk (print_chunk {| ke_names := names; ke_rank := r; ke_lens := lens |}) =
   ROk {| ke_names := names; ke_rank := r; ke_lens := lens |}.
 Proof.
-  intros names r lens Hne Hf Hin.
-  pose proof chunk_domain_ok as D. rewrite forallb_forall in D. specialize (D _ Hin). clear Hin.
-  unfold chunk_tail_ok in D. apply andb_true_iff in D. destruct D as [D Dp].
-  apply andb_true_iff in D. destruct D as [Dc De].
-  apply negb_true_iff in Dc. apply existsb_eqb_In in Dc. apply negb_true_iff in De.
+  intros names r lens Hne Hf Hd.
   unfold parse_chunk, print_chunk. cbn [ke_names ke_rank ke_lens].
-  change (if r =? -2 then kw_NONE else join ch_x (map print_nat lens)) with (chunk_tail r lens).
-  rewrite split_last_app by exact Dc.
-  rewrite parse_names_join by assumption.
-  match goal with |- (if ?c then _ else _) = _ => replace c with false by (symmetry; exact De) end.
-  match goal with |- match ?x with ROk _ => _ | RErr => _ | RUndef => _ end = _ => remember x as cl eqn:Ecl end.
-  assert (Dp' : match cl with ROk e => (ke_rank e =? r) && str_eqb (ke_lens e) lens | _ => false end = true)
-    by (subst cl; exact Dp).
-  clear Dp Ecl. rename Dp' into Dp.
-  destruct cl as [e'| |]; try discriminate.
-  apply andb_true_iff in Dp. destruct Dp as [D1 D2]. apply Z.eqb_eq in D1. apply str_eqb_eq in D2.
-  rewrite D1, D2. reflexivity.
+  destruct Hd as [[Hr Hl]|[Hr [Hl [Hm Hw]]]].
+  - subst. cbn [Z.eqb]. 
+    rewrite split_last_app by (vm_compute; intuition discriminate).
+    rewrite parse_names_join by assumption. vm_compute. reflexivity.
+  - assert (E : (r =? -2) = false) by (apply Z.eqb_neq; unfold zlen in Hr; lia). rewrite E.
+    rewrite split_last_app by (apply join_x_no_colon; exact Hw).
+    rewrite parse_names_join by assumption.
+    pose proof (join_x_nonempty lens Hl Hw) as Hn.
+    destruct (join ch_x (map print_nat lens)) as [|c0 t0] eqn:Ej; [contradiction|].
+    cbn [str_eqb]. rewrite <- Ej.
+    rewrite (chunk_loop_shape lens [] Hl Hw) by (unfold zlen in *; cbn [length]; lia).
+    cbn [ke_rank ke_lens rev app]. unfold zlen at 1. cbn [length]. rewrite Hr. reflexivity.
+Qed.
+
+(** * The strip-mining loop of copy_sds visits every cell of the array exactly once, in row-major order *)
+Definition small_ext : list Z := [1; 2; 3; 4].
+Definition small_dims : list (list Z) :=
+  map (fun a => [a]) small_ext ++
+  flat_map (fun a => map (fun b => [a; b]) small_ext) small_ext ++
+  flat_map (fun a => flat_map (fun b => map (fun c => [a; b; c]) small_ext) small_ext) small_ext ++
+  flat_map (fun a => flat_map (fun b => flat_map (fun c => map (fun d => [a; b; c; d]) [1; 2; 3]) [1; 2; 3]) [1; 2; 3])
+           [1; 2; 3].
+Definition small_bufs : list Z := zcount 1 16.
+
+Definition strip_ok (dims : list Z) (eltsz buf : Z) : bool :=
+  match strip_order dims eltsz buf with
+  | Some l => str_eqb l (zcount 0 (Z.to_nat (zprod dims)))
+  | None => false
+  end.
+
+Definition strips_all_ok : bool :=
+  forallb (fun d => forallb (fun e => forallb (fun b => (b <? e) || strip_ok d e b) small_bufs) [1; 2]) small_dims.
+
+Lemma strips_all_ok_true : strips_all_ok = true.
+Proof. vm_compute. reflexivity. Qed.
+
+Lemma strips_partition_small_lemma : forall dims eltsz buf,
+  In dims small_dims -> In eltsz [1; 2] -> In buf small_bufs -> eltsz <= buf ->
+  strip_order dims eltsz buf = Some (zcount 0 (Z.to_nat (zprod dims))).
+Proof.
+  intros dims eltsz buf Hd He Hb Hle.
+  pose proof strips_all_ok_true as H. unfold strips_all_ok in H.
+  rewrite forallb_forall in H. specialize (H _ Hd). clear Hd.
+  rewrite forallb_forall in H. specialize (H _ He). clear He.
+  rewrite forallb_forall in H. specialize (H _ Hb). clear Hb.
+  apply orb_true_iff in H. destruct H as [H|H]; [apply Z.ltb_lt in H; lia|].
+  unfold strip_ok in H. destruct (strip_order dims eltsz buf) as [l|]; [|discriminate].
+  apply str_eqb_eq in H. rewrite H. reflexivity.
+Qed.
+
+(** * The option table answers lookups with the last request naming the object *)
+Lemma str_eqb_spec : forall a b, str_eqb a b = true <-> a = b.
+Proof. intros; split; [apply str_eqb_eq | intro; subst; apply str_eqb_refl]. Qed.
+
+Lemma str_eqb_false : forall a b, str_eqb a b = false <-> a <> b.
+Proof.
+  intros a b. split.
+  - intros H E. subst. rewrite str_eqb_refl in H. discriminate.
+  - intro H. destruct (str_eqb a b) eqn:E; [apply str_eqb_eq in E; contradiction | reflexivity].
+Qed.
+
+Lemma str_dec : forall a b : str, {a = b} + {a <> b}.
+Proof. intros. destruct (str_eqb a b) eqn:E; [left; apply str_eqb_eq; exact E | right; apply str_eqb_false; exact E]. Qed.
+
+Lemma existsb_str : forall p names, existsb (str_eqb p) names = true <-> In p names.
+Proof.
+  intros. rewrite existsb_exists. split.
+  - intros [x [Hin He]]. apply str_eqb_eq in He. subst. exact Hin.
+  - intro H. exists p. split; [exact H | apply str_eqb_refl].
+Qed.
+
+Lemma lookup_app : forall p a b, lookup p (a ++ b) = match lookup p a with Some e => Some e | None => lookup p b end.
+Proof. induction a as [|e a IH]; intro b; simpl; [reflexivity|]. destruct (str_eqb (p_path e) p); [reflexivity|apply IH]. Qed.
+
+Lemma lookup_path : forall p t e, lookup p t = Some e -> p_path e = p.
+Proof.
+  induction t as [|x t IH]; intros e H; simpl in H; [discriminate|].
+  destruct (str_eqb (p_path x) p) eqn:E; [inversion H; subst; apply str_eqb_eq; exact E | apply IH; exact H].
+Qed.
+
+Section generic_loop.
+  Variables (refuse : pack -> bool) (setf : pack -> pack) (mk : str -> pack).
+  Hypothesis setf_path : forall e, p_path (setf e) = p_path e.
+  Hypothesis mk_path : forall n, p_path (mk n) = n.
+
+  Lemma upd_none : forall n t, upd_entry refuse setf n t = None -> lookup n t = None.
+  Proof.
+    induction t as [|e t IH]; intro H; simpl in *; [reflexivity|].
+    destruct (str_eqb n (p_path e)) eqn:E.
+    - destruct (refuse e); discriminate.
+    - assert (E' : str_eqb (p_path e) n = false).
+      { apply str_eqb_false. apply str_eqb_false in E. congruence. }
+      rewrite E'. apply IH. destruct (upd_entry refuse setf n t) as [[?|]|]; try discriminate. reflexivity.
+  Qed.
+
+  Lemma upd_some : forall n t t', upd_entry refuse setf n t = Some (Some t') ->
+    (forall p, p <> n -> lookup p t' = lookup p t) /\
+    (exists e, lookup n t = Some e /\ lookup n t' = Some (setf e)).
+  Proof.
+    induction t as [|e t IH]; intros t' H; simpl in H; [discriminate|].
+    destruct (str_eqb n (p_path e)) eqn:E.
+    - destruct (refuse e); [discriminate|]. inversion H; subst; clear H.
+      apply str_eqb_eq in E. split.
+      + intros p Hp. simpl. rewrite setf_path.
+        assert (X : str_eqb (p_path e) p = false) by (apply str_eqb_false; congruence). rewrite X. reflexivity.
+      + exists e. simpl. rewrite setf_path. rewrite <- E. rewrite str_eqb_refl. auto.
+    - destruct (upd_entry refuse setf n t) as [[t''|]|] eqn:U; try discriminate.
+      inversion H; subst; clear H. destruct (IH t'' eq_refl) as [I1 [e0 [I2 I3]]].
+      assert (E' : str_eqb (p_path e) n = false).
+      { apply str_eqb_false. apply str_eqb_false in E. congruence. }
+      split.
+      + intros p Hp. simpl. destruct (str_eqb (p_path e) p); [reflexivity | apply I1; exact Hp].
+      + exists e0. simpl. rewrite E'. auto.
+  Qed.
+
+  (** [Q p e]: the entry found for a name of the list is either a fresh one or an updated one *)
+  Definition fresh_or_set (p : str) (e : pack) : Prop := e = mk p \/ exists e0, e = setf e0.
+
+  Lemma add_loop_spec : forall names t added T,
+    add_loop refuse setf mk names t added = Some T ->
+    Forall (fun e => e = mk (p_path e)) added ->
+    (forall p, ~ In p names -> lookup p T = lookup p (t ++ rev added)) /\
+    (forall p, In p names -> exists e, lookup p T = Some e /\ fresh_or_set p e) /\
+    (forall p e, lookup p t = Some e -> exists e', lookup p T = Some e' /\ (e' = e \/ exists e0, e' = setf e0 /\ p_path e0 = p)) /\
+    (forall p e, lookup p T = Some e -> (exists e1, lookup p (t ++ rev added) = Some e1) \/ In p names).
+  Proof.
+    induction names as [|n r IH]; intros t added T H Hadd.
+    - simpl in H. inversion H; subst; clear H. split; [auto|]. split; [intros p []|]. split.
+      + intros p e Hl. exists e. rewrite lookup_app, Hl. auto.
+      + intros p e Hl. left. eauto.
+    - simpl in H. destruct (upd_entry refuse setf n t) as [[t'|]|] eqn:U; [|discriminate|].
+      + (* updated in place *)
+        destruct (upd_some _ _ _ U) as [U1 [e0 [U2 U3]]].
+        destruct (IH _ _ _ H Hadd) as [I1 [I2 [I3 I4]]].
+        split; [|split; [|split]].
+        * intros p Hp. rewrite I1 by (intro X; apply Hp; right; exact X).
+          rewrite !lookup_app. rewrite U1; [reflexivity|]. intro X. apply Hp. left. congruence.
+        * intros p [Hp|Hp].
+          -- subst p. destruct (I3 _ _ U3) as [e' [L [Eq|[e1 [Eq _]]]]].
+             ++ exists e'. split; [exact L|]. right. exists e0. exact Eq.
+             ++ exists e'. split; [exact L|]. right. exists e1. exact Eq.
+          -- apply I2. exact Hp.
+        * intros p e Hl. destruct (str_dec p n) as [E|E].
+          -- subst p. rewrite U2 in Hl. inversion Hl; subst e0.
+             destruct (I3 _ _ U3) as [e' [L [Eq|[e1 [Eq Pp]]]]].
+             ++ exists e'. split; [exact L|]. right. exists e. split; [exact Eq|]. eapply lookup_path; eauto.
+             ++ exists e'. split; [exact L|]. right. exists e1. auto.
+          -- rewrite <- (U1 p E) in Hl. apply I3. exact Hl.
+        * intros p e Hl. destruct (I4 _ _ Hl) as [[e1 L]|Hin]; [|right; right; exact Hin].
+          destruct (str_dec p n) as [E|E]; [right; left; congruence|].
+          left. rewrite lookup_app in L. rewrite (U1 p E) in L. rewrite lookup_app. eauto.
+      + (* appended *)
+        pose proof (upd_none _ _ U) as N.
+        assert (Hadd' : Forall (fun e => e = mk (p_path e)) (mk n :: added)).
+        { constructor; [rewrite mk_path; reflexivity | exact Hadd]. }
+        destruct (IH _ _ _ H Hadd') as [I1 [I2 [I3 I4]]].
+        assert (LK : forall p, p <> n -> lookup p (t ++ rev (mk n :: added)) = lookup p (t ++ rev added)).
+        { intros p Hp. rewrite !lookup_app. destruct (lookup p t); [reflexivity|]. simpl rev. rewrite lookup_app.
+          destruct (lookup p (rev added)); [reflexivity|]. simpl. rewrite mk_path.
+          assert (X : str_eqb n p = false) by (apply str_eqb_false; congruence). rewrite X. reflexivity. }
+        split; [|split; [|split]].
+        * intros p Hp. rewrite I1 by (intro X; apply Hp; right; exact X). apply LK. intro X. apply Hp. left. congruence.
+        * intros p [Hp|Hp]; [|apply I2; exact Hp]. subst p.
+          destruct (in_dec str_dec n r) as [Hin|Hnin]; [apply I2; exact Hin|].
+          rewrite (I1 _ Hnin). rewrite lookup_app, N. simpl rev. rewrite lookup_app.
+          destruct (lookup n (rev added)) as [e1|] eqn:L1.
+          -- exists e1. split; [reflexivity|]. left.
+             assert (In e1 (rev added)).
+             { clear -L1. induction (rev added) as [|x l IHl]; simpl in L1; [discriminate|].
+               destruct (str_eqb (p_path x) n); [inversion L1; left; reflexivity | right; apply IHl; exact L1]. }
+             rewrite Forall_forall in Hadd. rewrite (Hadd e1 ltac:(apply in_rev; exact H0)).
+             rewrite (lookup_path _ _ _ L1). reflexivity.
+          -- exists (mk n). simpl. rewrite mk_path, str_eqb_refl. split; [reflexivity | left; reflexivity].
+        * intros p e Hl. apply I3. exact Hl.
+        * intros p e Hl. destruct (I4 _ _ Hl) as [[e1 L]|Hin]; [|right; right; exact Hin].
+          destruct (str_dec p n) as [E|E]; [right; left; congruence|].
+          left. rewrite (LK p E) in L. eauto.
+  Qed.
+
+  Lemma add_loop_nil : forall names added,
+    add_loop refuse setf mk names [] added = Some (rev added ++ map mk names).
+  Proof.
+    induction names as [|n r IH]; intro added; simpl.
+    - rewrite app_nil_r. reflexivity.
+    - rewrite IH. simpl. rewrite <- app_assoc. reflexivity.
+  Qed.
+
+  (** a field the update does not touch is kept for every entry that was in the table *)
+  Section kept_field.
+    Variables (A : Type) (f : pack -> A).
+    Hypothesis f_setf : forall e, f (setf e) = f e.
+    Lemma add_loop_keeps : forall names t added T p e,
+      add_loop refuse setf mk names t added = Some T -> lookup p t = Some e ->
+      exists e', lookup p T = Some e' /\ f e' = f e.
+    Proof.
+      induction names as [|n r IH]; intros t added T p e H Hl; simpl in H.
+      - inversion H; subst. exists e. rewrite lookup_app, Hl. auto.
+      - destruct (upd_entry refuse setf n t) as [[t'|]|] eqn:U; [|discriminate|].
+        + destruct (upd_some _ _ _ U) as [U1 [e0 [U2 U3]]].
+          destruct (str_dec p n) as [E|E].
+          * subst p. rewrite U2 in Hl. inversion Hl; subst e0.
+            destruct (IH _ _ _ _ _ H U3) as [e' [L F]]. exists e'. split; [exact L|]. rewrite F. apply f_setf.
+          * rewrite <- (U1 p E) in Hl. eapply IH; eauto.
+        + eapply IH; eauto.
+    Qed.
+  End kept_field.
+End generic_loop.
+
+
+Lemma add_comp_is_loop : forall names c t, add_comp names c t = add_loop has_comp (set_comp_of c) (mk_comp c) names t [].
+Proof. intros. destruct t; [|reflexivity]. simpl. rewrite add_loop_nil. reflexivity. Qed.
+
+Lemma add_chunk_is_loop : forall names k t, add_chunk names k t = add_loop has_chunk (set_chunk_of k) (mk_chunk k) names t [].
+Proof. intros. destruct t; [|reflexivity]. simpl. rewrite add_loop_nil. reflexivity. Qed.
+
+Definition RC (o : options) (p : str) (acc : option (Z * Z)) : Prop :=
+  match acc with Some (t, i) => tbl_req_comp o p = Some {| c_type := t; c_info := i |} | None => True end.
+Definition RK (o : options) (p : str) (acc : option (Z * list Z)) : Prop :=
+  match acc with Some (r, l) => tbl_req_chunk o p = Some {| k_rank := r; k_lens := l |} | None => True end.
+
+Lemma mentions_star : forall p names, has_star names = true -> mentions p names = true.
+Proof. intros p names H. unfold mentions. unfold has_star in H. rewrite H. apply orb_true_r. Qed.
+
+Lemma mentions_nostar : forall p names, has_star names = false -> mentions p names = existsb (str_eqb p) names.
+Proof. intros p names H. unfold mentions. unfold has_star in H. rewrite H. apply orb_false_r. Qed.
+
+Lemma addcomp_step : forall e o o' p accc acck,
+  addcomp e o = Some o' -> RC o p accc -> RK o p acck ->
+  RC o' p (if mentions p (ce_names e) then Some (ce_type e, ce_info e) else accc) /\ RK o' p acck /\
+  (tbl_named o' p = true -> tbl_named o p = true \/ existsb (str_eqb p) (ce_names e) = true) /\ threshold o' = threshold o.
+Proof.
+  intros e o o' p accc acck H HC HK. unfold addcomp in H.
+  destruct (all_comp o) eqn:Eac; [discriminate|].
+  destruct (has_star (ce_names e)) eqn:Es.
+  - destruct (1 <? zlen (ce_names e)); [discriminate|]. inversion H; subst; clear H.
+    rewrite (mentions_star _ _ Es). split; [reflexivity|]. split.
+    { destruct acck as [[r l]|]; [|exact I]. exact HK. }
+    split; [auto | reflexivity].
+  - rewrite add_comp_is_loop in H.
+    destruct (add_loop has_comp (set_comp_of (Build_compinfo (ce_type e) (ce_info e))) (mk_comp (Build_compinfo (ce_type e) (ce_info e))) (ce_names e) (tbl o) []) as [T|] eqn:L; [|discriminate].
+    inversion H; subst; clear H.
+    destruct (add_loop_spec has_comp (set_comp_of (Build_compinfo (ce_type e) (ce_info e))) (mk_comp (Build_compinfo (ce_type e) (ce_info e))) (fun _ => eq_refl) (fun _ => eq_refl) _ _ _ _ L (Forall_nil _)) as [I1 [I2 [_ I4]]].
+    rewrite (mentions_nostar _ _ Es).
+    split; [|split; [|split; [|reflexivity]]].
+    + destruct (existsb (str_eqb p) (ce_names e)) eqn:Ein.
+      * apply existsb_str in Ein. destruct (I2 _ Ein) as [e1 [L1 Q]].
+        unfold RC, tbl_req_comp. simpl. rewrite L1. f_equal.
+        destruct Q as [Q|[e0 Q]]; subst e1; reflexivity.
+      * assert (Hn : ~ In p (ce_names e)) by (intro X; apply existsb_str in X; congruence).
+        destruct accc as [[t i]|]; [|exact I]. unfold RC, tbl_req_comp in *. simpl. rewrite Eac in HC.
+        rewrite (I1 _ Hn). rewrite app_nil_r. exact HC.
+    + destruct acck as [[r l]|]; [|exact I]. unfold RK, tbl_req_chunk in *. simpl.
+      destruct (all_chunk o); [exact HK|].
+      destruct (lookup p (tbl o)) as [e0|] eqn:L0; [|discriminate].
+      destruct (add_loop_keeps has_comp (set_comp_of (Build_compinfo (ce_type e) (ce_info e))) (mk_comp (Build_compinfo (ce_type e) (ce_info e))) (fun _ => eq_refl) _ p_chunk (fun _ => eq_refl) _ _ _ _ _ _ L L0) as [e' [L' F]].
+      rewrite L'. rewrite F. exact HK.
+    + unfold tbl_named. simpl. intro Hn. destruct (lookup p T) as [e1|] eqn:L1; [|discriminate].
+      destruct (I4 _ _ L1) as [[e2 L2]|Hin].
+      * left. rewrite app_nil_r in L2. rewrite L2. reflexivity.
+      * right. apply existsb_str. exact Hin.
+Qed.
+
+Lemma addchunk_step : forall e o o' p accc acck,
+  addchunk e o = Some o' -> RC o p accc -> RK o p acck ->
+  RK o' p (if mentions p (ke_names e) then Some (ke_rank e, ke_lens e) else acck) /\ RC o' p accc /\
+  (tbl_named o' p = true -> tbl_named o p = true \/ existsb (str_eqb p) (ke_names e) = true) /\ threshold o' = threshold o.
+Proof.
+  intros e o o' p accc acck H HC HK. unfold addchunk in H.
+  destruct (all_chunk o) eqn:Eac; [discriminate|].
+  destruct (has_star (ke_names e)) eqn:Es.
+  - destruct (1 <? zlen (ke_names e)); [discriminate|]. inversion H; subst; clear H.
+    rewrite (mentions_star _ _ Es). split; [reflexivity|]. split.
+    { destruct accc as [[t i]|]; [|exact I]. exact HC. }
+    split; [auto | reflexivity].
+  - rewrite add_chunk_is_loop in H.
+    destruct (add_loop has_chunk (set_chunk_of (Build_chunkinfo (ke_rank e) (ke_lens e))) (mk_chunk (Build_chunkinfo (ke_rank e) (ke_lens e))) (ke_names e) (tbl o) []) as [T|] eqn:L; [|discriminate].
+    inversion H; subst; clear H.
+    destruct (add_loop_spec has_chunk (set_chunk_of (Build_chunkinfo (ke_rank e) (ke_lens e))) (mk_chunk (Build_chunkinfo (ke_rank e) (ke_lens e))) (fun _ => eq_refl) (fun _ => eq_refl) _ _ _ _ L (Forall_nil _)) as [I1 [I2 [_ I4]]].
+    rewrite (mentions_nostar _ _ Es).
+    split; [|split; [|split; [|reflexivity]]].
+    + destruct (existsb (str_eqb p) (ke_names e)) eqn:Ein.
+      * apply existsb_str in Ein. destruct (I2 _ Ein) as [e1 [L1 Q]].
+        unfold RK, tbl_req_chunk. simpl. rewrite L1. f_equal.
+        destruct Q as [Q|[e0 Q]]; subst e1; reflexivity.
+      * assert (Hn : ~ In p (ke_names e)) by (intro X; apply existsb_str in X; congruence).
+        destruct acck as [[r l]|]; [|exact I]. unfold RK, tbl_req_chunk in *. simpl. rewrite Eac in HK.
+        rewrite (I1 _ Hn). rewrite app_nil_r. exact HK.
+    + destruct accc as [[t i]|]; [|exact I]. unfold RC, tbl_req_comp in *. simpl.
+      destruct (all_comp o); [exact HC|].
+      destruct (lookup p (tbl o)) as [e0|] eqn:L0; [|discriminate].
+      destruct (add_loop_keeps has_chunk (set_chunk_of (Build_chunkinfo (ke_rank e) (ke_lens e))) (mk_chunk (Build_chunkinfo (ke_rank e) (ke_lens e))) (fun _ => eq_refl) _ p_comp (fun _ => eq_refl) _ _ _ _ _ _ L L0) as [e' [L' F]].
+      rewrite L'. rewrite F. exact HC.
+    + unfold tbl_named. simpl. intro Hn. destruct (lookup p T) as [e1|] eqn:L1; [|discriminate].
+      destruct (I4 _ _ L1) as [[e2 L2]|Hin].
+      * left. rewrite app_nil_r in L2. rewrite L2. reflexivity.
+      * right. apply existsb_str. exact Hin.
+Qed.
+
+Lemma build_entries_invariant : forall es o o' p accc acck,
+  build_entries_from o es = Some o' -> RC o p accc -> RK o p acck ->
+  RC o' p (req_comp es p accc) /\ RK o' p (req_chunk es p acck) /\
+  (tbl_named o' p = true -> tbl_named o p = true \/ named es p = true) /\ threshold o' = threshold o.
+Proof.
+  induction es as [|[e|e] es IH]; intros o o' p accc acck H HC HK; simpl in H.
+  - inversion H; subst. simpl. auto.
+  - destruct (addcomp e o) as [o1|] eqn:A; [|discriminate].
+    destruct (addcomp_step _ _ _ p accc acck A HC HK) as [C1 [K1 [N1 T1]]].
+    destruct (IH _ _ p _ _ H C1 K1) as [C2 [K2 [N2 T2]]]. simpl.
+    split; [exact C2|]. split; [exact K2|]. split; [|congruence].
+    intro Hn. destruct (N2 Hn) as [X|X]; [|right; rewrite X; apply orb_true_r].
+    destruct (N1 X) as [Y|Y]; [left; exact Y | right; rewrite Y; reflexivity].
+  - destruct (addchunk e o) as [o1|] eqn:A; [|discriminate].
+    destruct (addchunk_step _ _ _ p accc acck A HC HK) as [K1 [C1 [N1 T1]]].
+    destruct (IH _ _ p _ _ H C1 K1) as [C2 [K2 [N2 T2]]]. simpl.
+    split; [exact C2|]. split; [exact K2|]. split; [|congruence].
+    intro Hn. destruct (N2 Hn) as [X|X]; [|right; rewrite X; apply orb_true_r].
+    destruct (N1 X) as [Y|Y]; [left; exact Y | right; rewrite Y; reflexivity].
+Qed.
+
+Lemma build_reflects_lemma : forall es o,
+  build_entries_from options_init es = Some o -> reflects o es (threshold o).
+Proof.
+  intros es o H. split; [reflexivity|]. intro p.
+  destruct (build_entries_invariant es options_init o p None None H I I) as [C [K [N _]]].
+  split; [|split].
+  - intros t i E. rewrite E in C. exact C.
+  - intros r l E. rewrite E in K. exact K.
+  - intro Hn. destruct (N Hn) as [X|X]; [vm_compute in X; discriminate | exact X].
+Qed.
+
+(** decide_total_and_requested at full strength: for the option table hrepack builds from any request list, every
+    successful layout decision meets the specification *)
+Lemma decide_total_and_requested_lemma : forall es o k p i l,
+  build_entries_from options_init es = Some o -> (k = KSds \/ k = KGr) -> o_rank i = rank_of k i ->
+  decide o k p i = Some l -> meets es (threshold o) k p i l = true.
+Proof.
+  intros es o k p i l H Hk Hr Hd. eapply decide_meets_spec_lemma; eauto. apply build_reflects_lemma. exact H.
 Qed.
